@@ -27,6 +27,7 @@ def run_case(ctx, idx, rng, tier):
     r = prog.Runner(ctx, dev, reg, [mon])
     g = gen.ProgGen(rng, dev, reg, r.chspecs, weights=WEIGHTS, big=rng.random() < 0.2)
     g.motifs["drift"] = 0.3
+    g.motifs["equalize"] = 0.35
     for _ in range(rng.randint(8, 40)):
         op = g.next_op()
         ev = r.step(op)
